@@ -262,7 +262,10 @@ def run(ctx):
     for fl in FLAVOURS:
         for lo in range(0, per, step):
             jobs.append((fl, lo, lo + step, True))
-    ctx.bounds = dict(programs=per * len(FLAVOURS), flavours=FLAVOURS, arguments='1-3 arguments, every 32-bit int / 64-bit long value',
+    nops = len(G.opcode_programs())
+    for lo in range(0, nops, 24):
+        jobs.append(('opcodes', lo, min(lo + 24, nops), True))
+    ctx.bounds = dict(programs=per * len(FLAVOURS) + nops, flavours=FLAVOURS + ['opcodes: one program per opcode form and literal class (%d)' % nops], arguments='1-3 arguments, every 32-bit int / 64-bit long value',
                       size='3-7 statements + header, nesting <= 2', loops='trip counts masked to 0..3 / 1..4 (unwinding 12 in the Java evaluator, 300 bytecode steps)',
                       paths='<= 20000 per program (larger programs are skipped and counted)')
     ctx.stubs = ['vf/dalvik_gen.py: generator, assembler and reference Dalvik semantics (assembler checked against the repo disassembler on every program)',
@@ -270,7 +273,7 @@ def run(ctx):
     ctx.assumptions = ['Java and Dalvik integer semantics as specified (two\'s complement, shift counts masked, division by zero throws, MIN / -1 wraps)']
     ctx.outside_claim = ['floats, doubles, objects, arrays, fields, invocations, exceptions other than ArithmeticException', 'programs beyond the path budget',
                          'javac acceptance is decided by javac itself (not by the solver)']
-    ctx.expect_reach(['programs'] + FLAVOURS)
+    ctx.expect_reach(['programs', 'opcodes'] + FLAVOURS)
     ctx.seed_for_jobs = ctx.seed
     ctx.diff_unhooked(sys.modules[__name__], [dict(flavour='ifs', lo=0, hi=6, seed=CORPUS_SEED), dict(flavour='mixed', lo=0, hi=6, seed=CORPUS_SEED)])
     res = [r for r in ctx.pmap(job, jobs) if r]
